@@ -96,8 +96,8 @@ TEXT = {
         "DESIGN.md 3 (W5), 4 (C18)",
     ),
     "C19": (
-        "For every entry point a receiver calls on transmitted or stored data, the same systematic fault walk as C05 plus drawn bit flips and long runs of one octet, hostile scripts behind valid commitments handed to the engine, the streamed PsbtView on every PSBT mutant, and a malicious peer's cfilters / merkle branches / signatures / proofs of hostile sizes handed to the decoders and boolean verifiers: only library exceptions escape, no over-read of the caller's stream, each call consumes / refuses / asks for more (no livelock), boolean verifiers answer; each call runs under a per-call CPU budget.",
-        "Parsers no party calls on a wire (BIP21, descriptor and miniscript text) are not covered. CPU budget via ITIMER_VIRTUAL.",
+        "For every entry point a receiver calls on transmitted or stored data, the same systematic fault walk as C05 plus drawn bit flips and long runs of one octet, hostile scripts behind valid commitments handed to the engine, the streamed PsbtView on every PSBT mutant, a malicious peer's cfilters / merkle branches / signatures / proofs of hostile sizes handed to the decoders and boolean verifiers, and damaged text (non-ASCII and surrogate characters, numbers of thousands of digits, nesting 100 000 deep, bytes that are not UTF-8) handed to every text decoder: only library exceptions escape, no over-read of the caller's stream, each call consumes / refuses / asks for more (no livelock), boolean verifiers answer; each call runs under a per-call CPU budget.",
+        "Text decoders (addresses, keys, paths, descriptors, miniscript, BIP21, mnemonics, hex / base64, amounts: 100 entry points) are covered by the `text` world on damaged well-formed texts of up to 100 000 characters; texts nobody would mistake for the kind are met through its long / edge classes only. CPU budget via ITIMER_VIRTUAL.",
         "deterministic simulation: fault enumeration (corruption / truncation / splicing at every position class) on every receiver entry point",
         "DESIGN.md 3 (W4), 4 (C19)",
     ),
